@@ -331,6 +331,26 @@ def F28():
                         f"z={em[j].position[2]} (r={em[j].radius:.4g}) overlap as equal-volume spheres")
 
 
+def F23():
+    from pde import CartesianGrid, ScalarField, UnitGrid
+    from droplets import DiffuseDroplet
+    from droplets.image_analysis import locate_droplets, refine_droplet
+    g = CartesianGrid([(0, 1.5), (0, 0.5), (-1.5, -0.5)], [3, 2, 4], periodic=[False, True, True])
+    f = ScalarField(g, (np.random.default_rng(859567243).random((3, 2, 4)) < 0.3).astype(float))
+    try:
+        em = locate_droplets(f, threshold="otsu", modes=3, refine=True, refine_args={"vmin": None, "vmax": None})
+    except ValueError as e:
+        return f"locate_droplets(refine=True, automatic levels) aborts on an anisotropic grid: ValueError {e}"
+    if not all(np.all(np.isfinite(d._data_array)) for d in em):
+        return "non-finite droplet"
+    g2 = UnitGrid([16, 16])
+    img = DiffuseDroplet([8, 8], 4, 1.).get_phase_field(g2)
+    try:
+        refine_droplet(img, DiffuseDroplet([8, 8], 0.3, 1.), vmin=None)
+    except ValueError as e:
+        return f"refine_droplet with an empty fit region and automatic level aborts: ValueError {e}"
+
+
 ALL = {k: v for k, v in globals().items() if k[0] == "F" and callable(v)}
 
 if __name__ == "__main__":
